@@ -20,7 +20,7 @@ func init() {
 		Explanation: "Static decision of the structural clauses of C08. R1 (MULT): in the badfilter filter every candidate is emitted at most once and only after a scan of ALL collected badfilter rules found none that negates it " +
 			"(the scan loop is nested inside the candidate loop, ranges over the whole collection, leaves early only on the true edge of the twin test, and the emission is unreachable from that early exit); the collection holds every rule " +
 			"with the badfilter option. R2: a rule with the badfilter option is never emitted. R3 (COV/SYM): the twin test is the conjunction of per-field equalities, each comparing the same field of the two operands, and it covers every modifier field " +
-			"the option loaders write plus the exception flag and the pattern. R4: the option comparison removes exactly the badfilter bit (evaluated on all small bit vectors). R5: both selectors apply the filter first. R9: clients.Equal is the conjunction of element-wise list equalities over every field. R10: every store to DNSResult.NetworkRule stores the return value of the DNS selector (which filters first) or nil, never a matched rule directly. A pointer comparison of two values is accepted only next to the deep comparison of the same values. Nothing is executed. R1 also requires the collected badfilter list to be the same for every candidate and the decision for a candidate to read nothing carried over from earlier candidates. R11 imports the sorted-list invariant of $ctag (C04.R3). R8 also imports the hash agreement of insert and probe side (C01.R3); R12 imports whole-line scanning (C12.R7).",
+			"the option loaders write plus the exception flag and the pattern. R4: the option comparison removes exactly the badfilter bit (evaluated on all small bit vectors). R5: both selectors apply the filter first. R9: clients.Equal is the conjunction of element-wise list equalities over every field. R10: every store to DNSResult.NetworkRule stores the return value of the DNS selector (which filters first) or nil, never a matched rule directly. A pointer comparison of two values is accepted only next to the deep comparison of the same values. Nothing is executed. R1 also requires the collected badfilter list to be the same for every candidate and the decision for a candidate to read nothing carried over from earlier candidates. R11 imports the sorted-list invariant of $ctag (C04.R3). R8 also imports the hash agreement of insert and probe side (C01.R3); R12 imports whole-line scanning (C12.R7). R15 (shared with C04.R12): the $client entries the twin test compares are stored in their normal form (parsed address, masked prefix, name as written).",
 		Trusted: []string{"slices.Equal / reflect.DeepEqual / (*clients).Equal compare by value (library and sibling contract)"},
 	})
 }
